@@ -20,8 +20,12 @@
      service; they are consumed by all services within the same step (the per-protocol event
      channels and their back-pressure are the subject of Report.v).
    ProtocolSet::report_substream_open always reports the MAIN protocol name (the negotiated
-   fallback travels in `fallback`), so inside the composition every substream of a keep-alive
-   protocol counts as activity (m = true).
+   fallback travels in `fallback`), and ProtocolSet::new classifies every negotiable name — main
+   and fallback alike — with the keep-alive flag of the protocol it belongs to (Names.v), which is
+   what the connection reads to decide whether an accepted inbound substream stores a lifetime
+   permit. So inside the composition a substream negotiated over a fallback name (m = false in the
+   input) is treated exactly like one negotiated over the main name: it counts as activity of a
+   keep-alive protocol and holds the connection while it lives.
    Definitions only. *)
 From Coq Require Import List NArith Bool PeanoNat.
 From V.Ts Require Import Model.
